@@ -172,6 +172,9 @@ def run_case(case):
             sim.N_ghost_y = ng
             sim.N_ghost_z = ng if r.random() < 0.5 else 0
         sim.opening_angle2 = r.choice([0.25, 1.0, 0.0])
+        if boundary == 'open' and r.random() < 0.5:
+            sim.track_energy_offset = 1          # removals then keep the array sorted (another removal path of the open boundary)
+            counters['open_runs_tracking_energy_offset'] = counters.get('open_runs_tracking_energy_offset', 0) + 1
         sim.softening = 0.01 * rs
         N0 = r.choice([1, 2, 5, 12, 30, 60])
         sim.dt = r.choice([1e-3, 1e-2, 0.1]) * r.choice([1, 1, -1])
